@@ -89,6 +89,10 @@ def random_line(rng, T):
                     "On", "Standby", "-30.5", "abc", "12345678", "1234567", "@UNDEFINED", "@RESTRICTED", "@x", "Up 99999999999999999999 dB",
                     # texts some number parser or other accepts (or chokes on): stored as free text, later the base of a relative step
                     "1/0", "3/4", "1e400", "-1e400", "nan", "inf", "-inf", "0x10", "１２", "1_0", " 5 ", "5.", ".5", "+5", "--5", "1e3", "٣", "1,5"])
+    if rng.random() < 0.04:
+        # a long line (any length is a line: a scene or zone name pasted by a user, a raw command), multi-byte characters at arbitrary offsets
+        pre = "a" * rng.randint(0, 3)
+        v = pre + "".join(rng.choice(["ü", "é", "𝄞", "x", "€"]) for _ in range(rng.choice([300, 520, 700, 1100, 2500, 5000])))
     return f"@{s}:{f}={v}"
 
 
